@@ -122,6 +122,17 @@ structure Inv (s : State) : Prop where
 theorem inv_init : Inv init := by
   constructor <;> intro h <;> first | rfl | (simp [init] at h)
 
+@[simp] theorem touch_abs (s : State) (k : Key) (t : Int) : s.touch.abs k t = s.abs k t := rfl
+@[simp] theorem touch_read (s : State) (k : Key) (lo hi : Int) (asc : Bool) :
+    s.touch.read k lo hi asc = s.read k lo hi asc := rfl
+@[simp] theorem touch_files (s : State) : s.touch.files = s.files := rfl
+@[simp] theorem touch_phase (s : State) : s.touch.phase = s.phase := rfl
+@[simp] theorem touch_snap (s : State) : s.touch.snap = s.snap := rfl
+@[simp] theorem touch_hot (s : State) : s.touch.hot = s.hot := rfl
+
+theorem inv_touch {s : State} (h : Inv s) : Inv s.touch :=
+  ⟨h.idle_snap, h.written_tmp, h.replaced_le, h.cleared_snap⟩
+
 /-! ### abs under each step -/
 
 theorem abs_stepWrite (s : State) (es : Log) (k : Key) (t : Int) :
@@ -140,7 +151,8 @@ theorem inv_stepWrite {s : State} (h : Inv s) (es : Log) : Inv (stepWrite s es) 
 theorem abs_stepSnapBegin {s : State} (h : Inv s) (k : Key) (t : Int) :
     (stepSnapBegin s).1.abs k t = s.abs k t := by
   unfold stepSnapBegin
-  cases hp : s.phase <;> simp only [State.abs_eq, walClose_hot, walClose_snap, walClose_files]
+  cases hp : s.phase <;> simp only [State.abs_eq, walClose_hot, walClose_snap, walClose_files,
+    touch_hot, touch_snap, touch_files]
   · -- idle: hot moves to the (empty) snapshot store
     rw [h.idle_snap hp]; simp [Log.get_nil]
 
@@ -158,8 +170,8 @@ theorem inv_stepSnapBegin {s : State} (h : Inv s) : Inv (stepSnapBegin s).1 := b
     · exact h.written_tmp
     · exact h.replaced_le
     · exact h.cleared_snap
-  · exact h
-  · exact h
+  · exact inv_touch h
+  · exact inv_touch h
 
 theorem abs_stepSnapStep {s : State} (h : Inv s) (k : Key) (t : Int) :
     (stepSnapStep s).abs k t = s.abs k t := by
